@@ -24,7 +24,7 @@ ASSUMPTIONS = ['a coroutine given to create_task that ends by cancellation, and 
                'the returned future end cancelled (the mirror rule of the statement: through convert_to_comm the reply is the mirror of that future)',
                'an exception raised by a _schedule_rpc callback may arrive wrapped, as long as it chains to the original',
                'thread-mode cases that hit their watchdog are inconclusive, never violations']
-REQUIRED = ['adapter/comm_thread', 'injected_delays', 'adapter/unwrap', 'adapter/plum2kiwi', 'adapter/create_task', 'adapter/schedule_rpc', 'outcome/value', 'outcome/exception', 'outcome/cancel',
+REQUIRED = ['adapter/convert_plain', 'foreign_loop_futures', 'adapter/comm_thread', 'injected_delays', 'adapter/unwrap', 'adapter/plum2kiwi', 'adapter/create_task', 'adapter/schedule_rpc', 'outcome/value', 'outcome/exception', 'outcome/cancel',
             'depth/2', 'depth/3', 'inner_first', 'outer_first', 'thread_mode', 'action_cases', 'callbacks_counted']
 EXHAUSTIVE = {'quick': False, 'thorough': False}
 BOUNDS = {'quick': 'depth<=3 exhaustive orders, depth 4 sampled (200), thread mode 120 cases', 'thorough': 'depth 4 all orders, thread mode 2000 cases'}
@@ -62,6 +62,13 @@ def gen_cases(tier, seed):
             cases.append({'adapter': 'create_task', 'depth': 1, 'order': [0], 'outcome': oc, 'thread': True, 'yields': yields})
     for thread in (False, True):
         cases.append({'adapter': 'create_task', 'depth': 1, 'order': [0], 'outcome': ['exc', 'creating-call-failed'], 'thread': thread, 'yields': 0, 'factory': 'raises'})
+    # a plain (not async) subscriber converted by convert_to_comm() that hands back a loop future (possibly resolving to further
+    # ones) for work it started; 'foreign': the innermost future belongs to another event loop than the one the subscriber is called on
+    for depth in (1, 2, 3):
+        for oc in OUTCOMES:
+            for order in list(itertools.permutations(range(depth))):
+                for foreign in (False, True):
+                    cases.append({'adapter': 'convert_plain', 'depth': depth, 'order': list(order), 'outcome': oc, 'thread': False, 'foreign': foreign})
     for depth in (0, 1, 2, 3):
         for oc in (OUTCOMES if depth else OUTCOMES[:4]):
             orders = list(itertools.permutations(range(depth))) or [()]
@@ -261,6 +268,36 @@ def run_case(case):
                 start()
             out = holder['out']
             _drive(loop, [], False, lambda: out.done(), on_loop=True)
+        elif adapter == 'convert_plain':
+            other = asyncio.new_event_loop() if case.get('foreign') else None
+            levels = [loop.create_future() for _ in range(depth - 1)] + [(other or loop).create_future()]
+
+            def subscriber(_comm, _msg):
+                return levels[0]
+
+            conv = communications.convert_to_comm(subscriber, loop)
+            out = futures.unwrap_kiwi_future(conv(None, 'msg'))
+            out.add_done_callback(lambda f: calls.append(1))
+
+            def flush_other():
+                if other is not None:
+                    other.call_soon(other.stop)
+                    other.run_forever()
+
+            steps = [lambda i=i: (_complete(levels[i], 'link' if i < depth - 1 else oc, levels[i + 1] if i < depth - 1 else None), flush_other()) for i in order]
+            try:
+                if case['order'][0] % 2 == 0 or depth == 1:
+                    # (the subscriber has been called and its future is being waited for before anything completes; otherwise the
+                    # first completion may come before the call)
+                    _drive(loop, [], False, lambda: out.done(), on_loop=True)
+                _drive(loop, steps, False, lambda: out.done(), on_loop=True)
+                for _ in range(3):
+                    flush_other()
+                    _drive(loop, [], False, lambda: out.done(), on_loop=True)
+            finally:
+                if other is not None:
+                    other.close()
+            obs['foreign_loop_futures'] = int(bool(case.get('foreign')))
         else:  # schedule_rpc
             proc = plumpy.Process(loop=loop)
             levels = [loop.create_future() for _ in range(depth)]
